@@ -15,6 +15,7 @@ GatesCoverUses == \A i \in 1..Len(UsesList) : \A m \in UsesList[i].uses : Gated(
 (* and no gate list names a feature that does not exist *)
 GatesNameFeatures == \A i \in 1..Len(GateList) : GateList[i].gate \subseteq Features
 ListsAgree == /\ Features = AllMsgs /\ Features = Includes
+              /\ Chained = {}                                     \* no message feature switches another feature on
               /\ {r[4] : r \in TableRows} = Features
               /\ \A r \in TableRows : r[1] = r[2] /\ r[2] = r[3] /\ r[3] = r[4]       \* feature literal, variant, module, number
               /\ \A p \in IncludePairs : p[1] = p[2]
